@@ -70,6 +70,7 @@ def parseOp (line : String) : Option Op :=
   | ["adv", d] => do some (.adv (← d.toNat?))
   | ["snap"] => some .snap
   | ["freq", k] => do some (.freq (← k.toNat?))
+  | ["policy"] => some .snap
   | w :: _ => if w.startsWith "skt." || w.startsWith "dq." then some .snap else none
   | _ => none
 
@@ -287,6 +288,7 @@ def parseObs (s : String) : Option Obs :=
   | ["bad-op"] => some .badOp
   | "snap" :: fields => (fields.foldlM parseSnapField emptySnap).map .snap
   | "cap" :: _ => some .ok
+  | "policy" :: _ => some .ok
   | "skt" :: _ => some .ok
   | "len" :: _ => some .ok
   | "dump" :: _ => some .ok
